@@ -39,6 +39,9 @@ typedef struct lltd_iface_state {
 
 static lltd_iface_state *g_iface_states = NULL;
 
+/* Upper bound on Probe/Train observations kept per interface between two Queries. */
+#define LLTD_SEE_LIST_MAX 1024u
+
 #define log_debug(...) lltd_port_log_debug(__VA_ARGS__)
 #define log_warning(...) lltd_port_log_warning(__VA_ARGS__)
 #define log_err(...) lltd_port_log_warning(__VA_ARGS__)
@@ -543,6 +546,13 @@ static void parseProbe(void *inFrame, lltd_iface_state *st, void *iface_ctx) {
     }
 
     if (found) {
+        lltd_port_free(probe);
+        return;
+    }
+
+    if (st->see_list_count >= LLTD_SEE_LIST_MAX) {
+        /* Bounded memory: a flood of invented sources must not grow the list without limit. */
+        log_warning("parseProbe: see-list full (%u entries), observation dropped", (unsigned)st->see_list_count);
         lltd_port_free(probe);
         return;
     }
